@@ -143,16 +143,19 @@ theorem witness_unclosed_string_after_statement :
     ∧ (result unclosedString.line 40).map (fun r => (r.errors, r.cont, r.program.length)) = some (0, false, 1) := by
   decide
 
-/-- `[() => 1]` is valid; on its prefix `[()` line mode reports an error instead of asking for more input -/
-theorem witness_empty_lambda_parameter_list :
+/-- (was a refutation witness; repaired by the parser fix "line mode asks for more input after () at the end of a
+line") `[() => 1]` is valid; on its prefix `[()` line mode now asks for more input and reports no error -/
+theorem fixed_empty_lambda_parameter_list :
     valid emptyParens.whole 40 = true ∧ (cutKind [91, 40, 41, 32, 61, 62, 32, 49, 93] emptyParens.whole.toks 3).isSome = true
-    ∧ (result emptyParens.line 40).map (fun r => decide (r.errors > 0)) = some true := by
+    ∧ (result emptyParens.line 40).map (fun r => (r.errors, r.cont)) = some (0, true) := by
   decide
 
-/-- `/*/ x */` is valid; its prefix `/*/` is an unclosed block comment, yet line mode does not ask for more input -/
-theorem witness_unclosed_comment_ending_in_star_slash :
+/-- (was a refutation witness; repaired by the parser fix "the unterminated block comment /*/ is not taken for a
+closed one") `/*/ x */` is valid; on its prefix `/*/`, an unclosed block comment whose text ends in `*/`, line mode
+now asks for more input and reports no error -/
+theorem fixed_unclosed_comment_ending_in_star_slash :
     valid fakeComment.whole 40 = true ∧ cutKind [47, 42, 47, 32, 120, 32, 42, 47] fakeComment.whole.toks 3 = some "in-comment"
-    ∧ (result fakeComment.line 40).map (fun r => (r.errors, r.cont)) = some (0, false) := by
+    ∧ (result fakeComment.line 40).map (fun r => (r.errors, r.cont)) = some (0, true) := by
   decide
 
 /-- part 1: file mode accepts `func(){` (block still open at the end of the input) without any error,
